@@ -232,6 +232,26 @@ pub fn record(args: &[String]) -> i32 {
                 }
             }
         }
+        // systematically: every node of the index reached by a prefix of a key, followed by every symbol of the alphabet
+        // (a byte that is not a child of the node must end the walk, whatever happens to be stored in the slot it selects)
+        let nsys = arg_u64(args, "--prefix-keys", 40) as usize;
+        for _ in 0..nsys {
+            let key: Vec<char> = rng.pick(&pool).chars().collect();
+            for plen in 0..=key.len() {
+                let prefix: String = key[..plen].iter().collect();
+                for sym in ALPHA.iter() {
+                    let text = format!("{}{}{}", prefix, sym, if plen % 2 == 0 { "" } else { "a" });
+                    let bytes = text.as_bytes().to_vec();
+                    let r = catch(std::panic::AssertUnwindSafe(|| {
+                        dict.lexicon().lookup(&bytes, 0).map(|e| json!([e.word_id.dic(), e.word_id.word(), e.end])).collect::<Vec<Value>>()
+                    }));
+                    match r {
+                        Ok(res) => tr.emit(json!({"ev": "lookup", "run": run, "text": bytes, "off": 0, "res": res})),
+                        Err(msg) => tr.emit(json!({"ev": "lookup", "run": run, "text": bytes, "off": 0, "panic": msg})),
+                    }
+                }
+            }
+        }
     }
     let n = tr.finish();
     println!("{}", json!({"events": n, "runs": run}));
